@@ -3,6 +3,8 @@
 package fdo
 
 import (
+	"hash"
+	"errors"
 	"crypto"
 	"crypto/ecdsa"
 	"crypto/hmac"
@@ -214,6 +216,7 @@ type vwHdr struct {
 	mk       int
 	mfgPub   crypto.PublicKey
 	hasChain bool
+	chainDropped bool
 	devCert  *x509.Certificate
 	cch      protocol.Hash
 }
@@ -258,6 +261,20 @@ func vwMkHeader(simple bool) *vwHdr {
 	if ma == protocol.HmacSha384Hash {
 		h.v.Hmac.Value = verif.Bytes("mac48", 48)
 	}
+	if !simple {
+		// a MAC value shorter than the digest (empty, truncated) must never be accepted
+		switch verif.Choose("maclenmode", 3) {
+		case 1:
+			h.v.Hmac.Value = h.v.Hmac.Value[:0]
+		case 2:
+			h.v.Hmac.Value = h.v.Hmac.Value[:8]
+		}
+		// the certificate chain removed while the (MACed) header still carries its hash
+		if h.hasChain && verif.Choose("dropchain", 2) == 1 {
+			h.v.CertChain = nil
+			h.chainDropped = true
+		}
+	}
 	return h
 }
 
@@ -267,7 +284,7 @@ func VerifC04_HeaderAcceptSpec() {
 	verif.Expect("header accepted")
 	verif.Expect("mfg key accepted")
 	verif.Expect("cert hash accepted")
-	verif.Bound("C04a header", "manufacturer key kind in {P-256, P-384} (+RSA-2048 thorough), X509 encoding; device info 0..2 bytes; device certificate chain absent / 1 certificate with hash alg in {SHA-256, SHA-384}; header MAC alg in {HMAC-SHA256, HMAC-SHA384, other}; credential key-hash alg in {SHA-256, SHA-384}; all values symbolic")
+	verif.Bound("C04a header", "manufacturer key kind in {P-256, P-384} (+RSA-2048 thorough), X509 encoding; device info 0..2 bytes; device certificate chain absent / 1 certificate with hash alg in {SHA-256, SHA-384}; header MAC alg in {HMAC-SHA256, HMAC-SHA384, other} with a value of full length, empty or 8 bytes; chain present, absent, or removed while its hash stays in the header; credential key-hash alg in {SHA-256, SHA-384}; all values symbolic")
 	h := vwMkHeader(false)
 	v := &h.v
 	secret := verif.Bytes("secret", 32)
@@ -301,6 +318,9 @@ func VerifC04_HeaderAcceptSpec() {
 		verif.Assert(verif.BytesEq(keyHash.Value, vwHashOf(keyHash.Algorithm, mkEnc)), "VerifyManufacturerKey accepts => credential key hash = H(encoded manufacturer key)")
 		verif.Reached("mfg key accepted")
 	}
+	if h.chainDropped {
+		verif.Assert(e3 != nil, "a voucher whose certificate chain was removed while the header still carries its hash fails verification")
+	}
 	if e3 == nil && h.hasChain {
 		verif.Assert(verif.BytesEq(h.cch.Value, vwHashOf(h.cch.Algorithm, h.devCert.Raw)), "VerifyCertChainHash accepts => header certificate hash = H(device certificate chain)")
 		verif.Reached("cert hash accepted")
@@ -314,14 +334,15 @@ func VerifC04_HeaderAcceptSpec() {
 func VerifC04_EntriesAcceptSpec() {
 	verif.Expect("accepted")
 	verif.Expect("rejected")
-	verif.Bound("C04a entries", "manufacturer key kind in {P-256, P-384}; 0..1 (quick) / 0..2 (thorough) entries with P-256/P-384 next owners; per entry: signature alg in {ES256, ES384, RS256, PS256, unregistered}, previous-hash and header-hash alg ids in {SHA-256, SHA-384, HMAC-SHA256, 0}; all values symbolic")
+	verif.Bound("C04a entries", "manufacturer key kind in {P-256, P-384}; 0..1 (quick) / 0..2 (thorough) entries with P-256/P-384 next owners; for the last entry (earlier ones keep honest ids): signature alg in {ES256, ES384, RS256, PS256, unregistered}, previous-hash and header-hash alg ids in {SHA-256, SHA-384, HMAC-SHA256, 0}; all values symbolic")
 	h := vwMkHeader(true)
 	v := &h.v
 	n := verif.Choose("nentries", 2+verif.Tier())
 	var entries []vwEntry
 	signerKind, signer := h.mk, h.mfgPub
 	for i := 0; i < n; i++ {
-		e := vwMkEntry(string(rune('A'+i)), signerKind, signer)
+		// the full algorithm-id grammar on the last entry; earlier entries (thorough) keep honest ids with symbolic values
+		e := vwMkEntryR(string(rune('A'+i)), signerKind, signer, i < n-1)
 		entries = append(entries, e)
 		v.Entries = append(v.Entries, e.tag)
 		signerKind, signer = e.nextKind, e.nextPub
@@ -604,4 +625,47 @@ func VerifC04_SpliceReorder() {
 	}
 	verif.Assert(!vwVerifyAll(&t, secret), "reordered, duplicated, truncated-at-front or spliced entries are rejected")
 	verif.Reached("end")
+}
+
+// vFallibleHmac wraps a device HMAC the way a hardware engine behaves: one of its
+// operations can fail; the failure is latched and reported by Err(), and the
+// failing Sum returns garbage.
+type vFallibleHmac struct {
+	hash.Hash
+	ops, failAt int // the failAt-th call of Sum fails (0 = never)
+	err         error
+	garbageLen  int
+}
+
+func (f *vFallibleHmac) Sum(b []byte) []byte {
+	f.ops++
+	if f.ops == f.failAt {
+		f.err = errors.New("harness: hmac engine fault")
+		return append(b, verif.Bytes("garbage", f.garbageLen)...)
+	}
+	return f.Hash.Sum(b)
+}
+func (f *vFallibleHmac) Err() error { return f.err }
+
+// a header check backed by an HMAC engine that may fault still accepts only
+// vouchers MACed with the device secret
+func VerifC04_HeaderFallibleHmac() {
+	verif.Expect("accepted")
+	verif.Expect("rejected")
+	verif.Bound("C04a fallible hmac", "as C04a header with HMAC-SHA256; the device's HMAC engine faults at its 1st Sum or never; a faulting Sum returns 0 or 32 arbitrary bytes; header MAC value arbitrary of length 0 or 32")
+	h := vwMkHeader(true)
+	if verif.Choose("shortmac", 2) == 1 {
+		h.v.Hmac.Value = h.v.Hmac.Value[:0]
+	}
+	secret := verif.Bytes("secret", 32)
+	eng := &vFallibleHmac{Hash: hmac.New(sha256.New, secret), failAt: verif.Choose("failat", 2), garbageLen: 32 * verif.Choose("garbage32", 2)}
+	err := h.v.VerifyHeader(eng, hmac.New(sha512.New384, secret))
+	if err != nil {
+		verif.Reached("rejected")
+		return
+	}
+	verif.Reached("accepted")
+	hdrEnc := vwMust(cbor.Marshal(&h.hdr))
+	verif.Assert(verif.BytesEq(h.v.Hmac.Value, verif.HmacOf(crypto.SHA256, secret, hdrEnc)), "VerifyHeader accepts => header MAC = HMAC(device secret, encoded header), also when the HMAC engine can fault")
+	verif.Assert(eng.err == nil, "a verdict is never based on a faulted HMAC computation")
 }
